@@ -24,7 +24,9 @@ def run(ctx):
               "one ulp either side of lattice points, the top of the last cell, dyadic and uniform random; with a clamp beneath also far outside "
               "the grid (< 2^32).  Oracle: exact sum in binary128 over the storage layer's own lattice values; |got-exact| <= "
               "2*gamma_k(u)*sum|w||v| + tiny, k = 2N+2^N+2, u the coarser unit roundoff; bit-equality with the stored value at lattice points; "
-              "result inside the corner range.  non-trivial: strictly interior fraction on >= 1 axis on non-affine data; distinct = hash of "
+              "result inside the corner range.  In addition, over an index-recording probe storage with extents up to 2^20 per axis (no memory), the 2^N "
+              "flat indices an interpolated lookup READS must be exactly those of the cell containing x (neighbour enumeration at coordinates no "
+              "array-backed field reaches).  non-trivial: strictly interior fraction on >= 1 axis on non-affine data; distinct = hash of "
               "(instantiation, field, cell)"),
         assumptions=["stored magnitudes keep 2^27 headroom below overflow of the narrower type", "real coordinates >= 2^32 are excluded: the index conversion itself is undefined there",
                      "the storage-order layer beneath is trusted only to the extent that the same layer view supplies the corner values to the oracle"])
